@@ -150,7 +150,8 @@ class C01(E1Check):
         return 2 if len(program["cbs"]) <= 1 else 1
 
     def hash_modes(self, tier: str, program: Any) -> tuple:
-        return (0,)
+        # thorough: both iteration orders of the task sets that anyio walks when it delivers a cancellation
+        return (0,) if tier == "quick" else (0, 1)
 
     def backends_for(self, tier: str, program: Any) -> tuple:
         if program["end"] == "cancel-task":
